@@ -87,6 +87,7 @@ func c12Pay(c *fw.Ctx, i int) {
 	start := uint16(r.Pick(0, 1, 0x7FFE, 0x7FFF, 0x8000, 0x8005, 0xFFFF, 0xFFFE, r.Intn(65536)))
 	p0 := &codecs.VP9Payloader{FlexibleMode: flex, InitialPictureIDFn: func() uint16 { return start }}
 	insts := []*codecs.VP9Payloader{p0}
+	var kpPay keeper // every packet list ever returned, kept as returned
 	nframes := r.Range(2, 6)
 	for k := 0; k < nframes; k++ {
 		if k > 0 && r.Chance(1, 6) {
@@ -129,11 +130,22 @@ func c12Pay(c *fw.Ctx, i int) {
 		}
 		for _, p := range insts {
 			var pkts [][]byte
+			if what, ch := kpPay.changed(); ch {
+				c.Fail("C12/payloader/earlier-result-changed-by-a-later-call", "a later Payload call changed "+what, fw.W("mtu", mtu))
+				return
+			}
 			if pv, st := fw.Guard(func() { pkts = p.Payload(uint16(mtu), frame) }); pv != nil {
 				c.Fail("C12/payloader/panic/"+fw.PanicFunc(st), fmt.Sprintf("VP9Payloader.Payload panicked: %v", pv), fw.W("mtu", mtu, "frame", fw.Trunc(fw.Hex(frame), 200), "stack", st))
 				return
 			}
 			c.Evals(1)
+			if len(pkts) <= 64 {
+				kpPay.addList(fmt.Sprintf("the packet list returned for frame %d", k), pkts)
+			}
+			if what, ch := kpPay.changed(); ch {
+				c.Fail("C12/payloader/earlier-result-changed-by-a-later-call", "a later Payload call changed "+what, fw.W("mtu", mtu))
+				return
+			}
 			wantID := (start&0x7FFF + uint16(k)) & 0x7FFF
 			wit := func(extra ...any) map[string]any {
 				m := fw.W("mode", map[bool]string{true: "flexible", false: "non-flexible"}[flex], "start_picture_id", start, "frame_index_on_instance", k, "expected_picture_id", wantID,
@@ -382,12 +394,33 @@ func c12Dec(c *fw.Ctx, i int) {
 		return
 	}
 	judged := d.NS <= 4
+	// one receiver decoding a stream, as an application does; what it decoded earlier was copied out (struct copy) and is kept
+	var stream codecs.VP9Packet
+	var kp keeper
+	keepStream := func(in []byte) {
+		if b, err := stream.Unmarshal(fw.Exact(in)); err == nil {
+			cp := stream
+			kp.add("the bytes returned for an earlier packet", b)
+			kp.addMeta("a VP9Packet value copied out after an earlier Unmarshal", instVP9{&cp}.Meta)
+		}
+	}
+	defer func() {
+		// another descriptor with lists of its own into the same receiver, then look at what was kept
+		d2 := c12Desc(r)
+		fw.Guard(func() {
+			keepStream(append(d2.Encode(), 0x55))
+			keepStream(append(c12Desc(r).Encode(), 0x66, 0x77))
+		})
+		if what, ch := kp.changed(); ch {
+			c.Fail("C12/decoder/earlier-result-changed-by-a-later-call", "decoding a later packet into the same VP9Packet changed "+what, fw.W("first_descriptor", fw.Hex(enc), "later_descriptor", fw.Hex(d2.Encode())))
+		}
+	}()
 	for _, plen := range []int{1, 0, 5} {
 		in := fw.Exact(append(append([]byte{}, enc...), r.Bytes(plen)...))
 		var vp codecs.VP9Packet
 		var body []byte
 		var err error
-		if pv, st := fw.Guard(func() { body, err = vp.Unmarshal(in) }); pv != nil {
+		if pv, st := fw.Guard(func() { body, err = vp.Unmarshal(in); keepStream(in) }); pv != nil {
 			c.Fail("C12/decoder/panic/"+fw.PanicFunc(st), fmt.Sprintf("VP9Packet.Unmarshal panicked: %v", pv), fw.W("input", fw.Hex(in), "stack", st))
 			return
 		}
